@@ -109,28 +109,10 @@ func reset(w *wsutil.Writer, cfg Config, dst *xport.Rec) (model *wops.Model, ok 
 	return wops.NewModel(dst, cfg.Side == ref.SideClient, cfg.Op, cfg.NoFlush, rsv), true
 }
 
-// richDst is the recording destination behind the optional interfaces a
-// destination may have (a *net.TCPConn has ReadFrom, a *bufio.Writer has
-// WriteString and ReadFrom too): whichever the writer picks, every call must
-// hand over whole frames.
-type richDst struct{ rec *xport.Rec }
-
-func (d richDst) Write(p []byte) (int, error)       { return d.rec.Write(p) }
-func (d richDst) WriteString(s string) (int, error) { return d.rec.Write([]byte(s)) }
-func (d richDst) ReadFrom(r io.Reader) (int64, error) {
-	b, err := io.ReadAll(r)
-	if len(b) > 0 {
-		if _, werr := d.rec.Write(b); werr != nil {
-			return 0, werr
-		}
-	}
-	return int64(len(b)), err
-}
-
 // dest picks the kind of destination for a configuration.
 func dest(cfg Config, rec *xport.Rec) io.Writer {
 	if (cfg.N+int(cfg.Side)+cfg.Ext)%3 == 1 {
-		return richDst{rec}
+		return xport.RichDst{Rec: rec}
 	}
 	return rec
 }
